@@ -53,6 +53,7 @@ def gen_args(rng, large=False):
             "relative": rng.random() < 0.5,
             "shared_dir": rng.random() < 0.25,
             "path_objects": rng.random() < 0.3,
+            "log_debug": rng.random() < 0.25,
             "r": rng.choice(RADII[:3] if large else RADII),
             "origin": [rng.choice([0.0, 0.3, -0.7, 1.4, 0.5]) for _ in range(3)],
             "bounds": rng.choice(BOUNDS),
@@ -71,6 +72,7 @@ def gen_args(rng, large=False):
         "relative": rng.random() < 0.5,
         "shared_dir": rng.random() < 0.25,
         "path_objects": rng.random() < 0.3,
+        "log_debug": rng.random() < 0.25,
         "r": round(rng.uniform(1.0, 4.5 if large else 12.0), 3),
         "origin": [round(rng.uniform(-1.5, 2.5), 4) for _ in range(3)],
         "bounds": [lo, hi],
@@ -262,7 +264,7 @@ def random_run(verif_seed, index, stratum="random"):
 
 # ------------------------------------------------------------- templates
 TEMPLATE_Q1 = [None, "uc_atoms", "conn", "uc_mols", "sym_mols", "labelled_uc_mols"]
-TEMPLATE_MUT = ["switch", "flip3", "normH", "normH_tol"]
+TEMPLATE_MUT = ["switch", "flip3", "normH", "normH_tol", "same"]
 TEMPLATE_SRC = [
     ("co", None),
     ("co", "cif"),
@@ -290,6 +292,9 @@ TEMPLATE_COMBOS = [
     # the normalisation with its own tolerance: cold or atom-table-only memo state, bond-graph consumers afterwards
     and (TEMPLATE_MUT[m] != "normH_tol" or (p < N_MEMO_PAIRS and TEMPLATE_PAIRS[p][0] in (None, "uc_atoms")
                                             and TEMPLATE_PAIRS[p][1] in ("conn", "uc_mols", "sym_mols", "menv", "as_P1")))
+    # asking for the setting the crystal is in already (a state-changing call that changes nothing)
+    and (TEMPLATE_MUT[m] != "same" or (p < N_MEMO_PAIRS and TEMPLATE_PAIRS[p][0] in (None, "uc_atoms", "sym_mols")
+                                       and TEMPLATE_PAIRS[p][1] in ("cif_twin", "cif", "sl_cif", "res", "uc_atoms", "sym_mols")))
 ]
 N_TEMPLATES = len(TEMPLATE_COMBOS)
 
@@ -323,6 +328,8 @@ def template_run(verif_seed, index, stratum="template"):
             spec["via"] = via
         if spec.get("via") != "cif":
             spec["quirks"] = None
+        elif index % 2 == 0 and "descriptive" not in (spec.get("quirks") or []):
+            spec["quirks"] = (spec.get("quirks") or []) + ["descriptive"]
     A = gen_args(rng, is_large(spec))
     ref_mode = ref_mode_for(rng)
     plan = []
@@ -343,7 +350,7 @@ def template_run(verif_seed, index, stratum="template"):
             other = "toR" if choice == "H" else "toH"
             back = "toH" if choice == "H" else "toR"
             tail = {"switch": [other], "switch2": [other, back], "flip3": ["flip3"], "normH": ["normH"],
-                    "normH_tol": ["normH_tol"]}[mut]
+                    "normH_tol": ["normH_tol"], "same": [back]}[mut]
             rest = [{"h": target, "op": m} for m in tail]
             if defer:
                 rest.append({"h": target, "op": "inspect"})
